@@ -71,6 +71,9 @@ def atom(r, st, f):
         opts += [("cls", "[ab]"), ("cls", "[^a]"), ("cls", "\\w"), ("cls", "[b-c]"), ("cls", "\\d")]
         if f.casei_alpha:
             opts += [("cls", "[aB]"), ("cls", "[A-B]")]
+        # classes whose members are escapes: the quoting of the class text handed to the automata engine
+        opts += [("cls", r.choice(["[a\\-c]", "[\\w\\-]", "[a\\&&b]", "[\\^a]", "[a\\]b]", "[\\[a]", "[a\\~~b]", "[\\\\a]", "[b\\x2dc]"] +
+                                  (["[x\\H]", "[^\\H]", "[\\Ha]", "[\\h-]", "[^\\ha]"] if f.fancy else [])))]
     if f.classes:
         # single-character escapes (the parser's escape table) - literals of one character
         opts += [("cls", r.choice(["\\n", "\\t", "\\r", "\\f", "\\v", "\\a"] + (["\\e", "\\ "] if f.fancy else [])))]
@@ -98,6 +101,8 @@ def atom(r, st, f):
             pool = st.closed if f.refs_closed else list(range(1, st.count + 1))
             if pool:
                 opts += [("condg0", r.choice(pool))]
+            if not f.refs_closed and r.random() < 0.15:
+                opts += [("condg0", st.count + r.choice([1, 1, 2]))]      # a group that does not exist (yet): rejected unless opened later
     return r.choice(opts)
 
 
